@@ -50,6 +50,12 @@ ModelSeqLock ModelSequenceLocks(const CTransaction& tx, const std::vector<int>& 
 CAmount ModelDustThreshold(const CTxOut& out, CAmount dust_feerate_per_kvb = 3000);
 bool ModelIsDust(const CTxOut& out, CAmount dust_feerate_per_kvb = 3000);
 
+/** Own signature-operation cost counter, written from the BIP16/BIP141 rules (shares no code with script.cpp/tx_verify.cpp):
+ *  4 x legacy count over scriptSigs and output scripts (CHECKSIG(VERIFY) = 1, CHECKMULTISIG(VERIFY) = 20), 4 x accurate count of the
+ *  redeem script for P2SH inputs (CHECKMULTISIG after OP_n counts n), 1 per P2WPKH input, accurate count of the witness script for P2WSH
+ *  inputs (also when nested in P2SH); other witness versions 0. `spk_of` returns the script of a spent output (nullopt: unknown, counted 0). */
+int64_t ModelSigOpCost(const CTransaction& tx, const std::function<std::optional<CScript>(const COutPoint&)>& spk_of);
+
 /** pay-to-anchor output script (OP_1 <0x4e73>) */
 CScript P2AScript();
 
